@@ -44,9 +44,10 @@ type c20op struct {
 	IP       string   `json:"ip,omitempty"`
 	Perm     bool     `json:"perm,omitempty"`
 	Unix     int64    `json:"unix,omitempty"`
+	Burst    []c20op  `json:"burst,omitempty"` // op "burst": made at the same time on one store object (never the in-flight update)
 }
 
-var c20BanIPs = []string{"1.1.1.1", "2.2.2.2", "10.0.0.7"}
+var c20BanIPs = []string{"1.1.1.1", "2.2.2.2", "10.0.0.7", "10.0.0.8", "10.0.0.9", "172.16.0.1", "172.16.0.2", "192.168.1.1"}
 
 const c20FollowUpIP = "9.9.9.9"
 
@@ -118,6 +119,14 @@ func c20dump(dir string) (string, error) {
 // c20effect says whether the effect of an acknowledged update is in what a restart would load (an expectation of
 // its own, not a comparison of the implementation with itself): "" if it is, else what is missing.
 func c20effect(dir string, o c20op) string {
+	if o.Op == "burst" {
+		for _, sub := range o.Burst {
+			if miss := c20effect(dir, sub); miss != "" {
+				return fmt.Sprintf("of %d updates made at the same time: %s", len(o.Burst), miss)
+			}
+		}
+		return ""
+	}
 	switch o.Store {
 	case "board":
 		fn, err := verifhooks.NewFlatNews(filepath.Join(dir, "MessageBoard.txt"))
@@ -362,6 +371,41 @@ func c20genOp(rt *rapid.T, label string, store string, st *c20model) c20op {
 	}
 }
 
+// c20genBurst: 2-6 updates of one store that commute (bans of different addresses, creations of different accounts,
+// bundles or categories), to be made at the same time.
+func c20genBurst(rt *rapid.T, label string, store string, st *c20model) c20op {
+	k := rapid.IntRange(2, 6).Draw(rt, label+"_k")
+	b := c20op{Store: store, Op: "burst"}
+	switch store {
+	case "ban":
+		ips := rapid.Permutation(c20BanIPs).Draw(rt, label+"_ips")[:k]
+		for _, ip := range ips {
+			b.Burst = append(b.Burst, c20op{Store: "ban", IP: ip, Perm: true})
+		}
+	case "acct":
+		for i := 0; i < k; i++ {
+			st.seq++
+			l := fmt.Sprintf("user%d", st.seq)
+			st.logins = append(st.logins, l)
+			b.Burst = append(b.Burst, c20op{Store: "acct", Op: "create", Login: l, Name: "Name " + l, Access: []byte{0x80, 0, 0, 0, 0, 0, 0, 0}, Password: "$2a$04$abcdefghijklmnopqrstuuJ3TC0X0yZ0yZ0yZ0yZ0yZ0yZ0yZ0yZ0"})
+		}
+	default:
+		for i := 0; i < k; i++ {
+			st.seq++
+			if i%2 == 0 {
+				n := fmt.Sprintf("Bundle%d", st.seq)
+				st.bundles = append(st.bundles, n)
+				b.Burst = append(b.Burst, c20op{Store: "news", Op: "bundle", Name: n})
+			} else {
+				n := fmt.Sprintf("Cat%d", st.seq)
+				st.cats = append(st.cats, n)
+				b.Burst = append(b.Burst, c20op{Store: "news", Op: "category", Name: n})
+			}
+		}
+	}
+	return b
+}
+
 func remove(s []string, x string) []string {
 	var o []string
 	for _, y := range s {
@@ -392,6 +436,10 @@ func c20prop(ev *evid.Rec) func(rt *rapid.T) {
 		st := &c20model{artSeq: map[string]int{}}
 		var ops []c20op
 		for i := 0; i < n; i++ {
+			if i < n-1 && store != "board" && rapid.IntRange(0, 3).Draw(rt, fmt.Sprintf("burst%d", i)) == 0 {
+				ops = append(ops, c20genBurst(rt, fmt.Sprintf("u%d", i), store, st))
+				continue
+			}
 			ops = append(ops, c20genOp(rt, fmt.Sprintf("u%d", i), store, st))
 		}
 		scratch, err := os.MkdirTemp(worldBase(), "c20-")
@@ -404,6 +452,9 @@ func c20prop(ev *evid.Rec) func(rt *rapid.T) {
 		js := func(o c20op) string { b, _ := json.Marshal(o); return string(b) }
 		for i, o := range ops[:n-1] {
 			if out, err := exec.Command(helper, d0, js(o)).CombinedOutput(); err != nil || !bytes.Contains(out, []byte("ACK")) {
+				if o.Op == "burst" {
+					rt.Fatalf("store=%s history=%s: of %d independent updates made at the same time (no fault injected) one failed: %s", store, opsDesc(ops[:i+1]), len(o.Burst), bytes.TrimSpace(out))
+				}
 				rt.Fatalf("harness: prefix update %s failed: %v %s", js(o), err, out)
 			}
 			if miss := c20effect(d0, o); miss != "" {
@@ -535,6 +586,10 @@ func lsDir(d string) string {
 func opsDesc(ops []c20op) string {
 	var s []string
 	for _, o := range ops {
+		if o.Op == "burst" {
+			s = append(s, "at-the-same-time{"+opsDesc(o.Burst)+"}")
+			continue
+		}
 		switch o.Store {
 		case "board":
 			s = append(s, fmt.Sprintf("post(%d bytes)", len(o.Text)))
